@@ -5,16 +5,35 @@ usage: gen_findings.py [--merge]   (--merge keeps existing corpus entries whose 
 import json, glob, re, sys, os
 
 ROOT = '/verif'
+RC = {
+ 1: "RC1 proxy.go __isCompatibleDescriptor compares getter/setter of a non-configurable accessor inverted: an honest (identical) accessor descriptor is rejected, a lying one accepted",
+ 2: "RC2 proxy.go __isCompatibleDescriptor accepts a data<->accessor kind change of a non-configurable property when the descriptor has no `configurable` field",
+ 3: "RC3 proxy.go proxyGetOwnPropertyDescriptor builds its result from the raw trap result object (toValueProp) instead of the completed descriptor: an absent `value` becomes a nil value (corrupt descriptor object, treated as accessor by isFrozen/freeze), an accessor with get and set undefined becomes a data property",
+ 4: "RC4 proxy.go proxyOwnKeys dereferences a missing element of the trap result (array-like with a hole): Go nil-pointer panic escapes to the host",
+ 5: "RC5 (bare target, no proxy involved; property C04's domain) ordinary [[DefineOwnProperty]] lets {writable:..} / {get|set:undefined} change the kind of a non-configurable property",
+ 6: "RC6 the defineProperty trap is handed the caller's descriptor object instead of FromPropertyDescriptor(Desc): a forwarding handler re-reads getter-backed descriptor fields",
+ 7: "RC7 (bare exotic target deviates, no proxy defect; property C04/C07's domain: array / function / arguments objects mishandle setter-less accessors, enumerable:false on mapped arguments, isSealed) - the generic path through the proxy and the specialised bare path disagree",
+ 8: "RC8 (bare typed array, no proxy involved; property C17's domain) defineProperty without a value on an integer-indexed element: Go nil-pointer panic",
+}
 rules = [
-    (r'go-panic', 'RC4 proxyOwnKeys dereferences a nil element of the trap result (array-like with a hole): Go nil-pointer panic escapes to the host'),
-    (r'^B\|bare-target\|', 'RC5 (bare target, no proxy involved; property C04 domain) ordinary [[DefineOwnProperty]] lets a writable-only / get-or-set-undefined descriptor change the kind of a non-configurable property'),
-    (r'getter-backed', 'RC6 the defineProperty trap is handed the caller\'s descriptor object instead of FromPropertyDescriptor(Desc), so a forwarding handler reads getter-backed descriptor fields a second time'),
+    (r'bare-go-panic', 8),
+    (r'go-panic', 4),
+    (r'^B\|bare-target\|', 5),
+    (r'getter-backed', 6),
+    (r'<listed by ownKeys but no descriptor>|engine=K<v=|engine=ok:B$|is a read-only and non-configurable data|Object\.freeze\|state-differs|Reflect\.getOwnPropertyDescriptor\|result-differs|call-sequence\|engine:defineProperty\|spec:defineProperty', 3),
+    (r"accessor<-data\|spec=throw|data<-accessor\|spec=throw", 2),
+    (r"trap returned descriptor for property|incompatible-descriptor\|engine=ok|engine=throw:TypeError\[\]|\[op:(Reflect|Object)\.(defineProperty|freeze|seal)\]", 1),
+    (r"Reflect\.set=2|Receiver property|'set' on proxy|mappedArguments|strictArguments|\|function\|", 7),
 ]
-def classify(sig, what):
-    for rx, label in rules:
+def classify(sig):
+    for rx, n in rules:
         if re.search(rx, sig):
-            return label
-    return None
+            return RC[n]
+    return "unclassified"
+
+def label(sig, what):
+    what = re.sub(r'^\[(RC\d|unclassified)[^\]]*\] ', '', what)
+    return "[" + classify(sig) + "] " + what
 
 def main():
     merge = '--merge' in sys.argv
@@ -41,7 +60,7 @@ def main():
     json.dump(out, open(ROOT + '/checks/c11/corpus.json', 'w'), indent=0, ensure_ascii=False)
     with open(ROOT + '/findings.d/C11.jsonl', 'w') as f:
         for k in sorted(entries):
-            f.write(json.dumps({'property': 'C11', 'signature': k, 'what': whats.get(k, '')}, ensure_ascii=False) + '\n')
+            f.write(json.dumps({'property': 'C11', 'signature': k, 'what': label(k, whats.get(k, ''))}, ensure_ascii=False) + '\n')
     print(len(out), 'entries')
 
 main()
